@@ -5,7 +5,7 @@ ENTRY = {'coq_dir': 'C19',
  'cases': {'quick': 11000, 'thorough': 300000},
  'harness_timeout': 3000,
  'consts': ['C19_KAD_MAX_ADDRESSES', 'C19_KAD_DEFAULT_MAX_MESSAGE_SIZE', 'C19_IDENTIFY_PAYLOAD_SIZE',
-            'C19_BITSWAP_MAX_MESSAGE_SIZE', 'C19_WEBRTC_MAX_FRAME_SIZE', 'C03_MAX_PROTOCOLS', 'C03_MAX_LEN_BYTES',
+            'C19_BITSWAP_MAX_MESSAGE_SIZE', 'C19_WEBRTC_MAX_FRAME_SIZE', 'C19_MDNS_BUFFER', 'C19_PING_PAYLOAD_SIZE', 'C03_MAX_PROTOCOLS', 'C03_MAX_LEN_BYTES',
             'REPLICATION_FACTOR', 'MAX_INLINE_KEY_LENGTH', 'MULTIHASH_IDENTITY_CODE', 'PEER_ID_MULTIHASH_SIZE',
             'MAX_NOISE_MSG_LEN', 'MAX_FRAME_LEN', 'BACKPRESSURE_BOUNDARY'],
  'nontrivial_min_trace': 6,
